@@ -451,6 +451,7 @@ impl<'a> World<'a> {
         self.coord.plans = (0..self.env.inputs.len()).map(|_| None).collect();
         self.coord.extracted = None;
         self.stats.probe("coord_restart");
+        self.final_memory.retain(|k, _| !k.0.starts_with("coord:"));
         let bytes = self.coord.persisted.clone();
         self.coord.psbt = bytes.and_then(|b| Psbt::deserialize(&b).ok());
         // re-parse descriptors from their strings: must reproduce the same scriptPubKeys
@@ -647,6 +648,8 @@ impl<'a> World<'a> {
                     if epoch >= self.replicas[r].epoch {
                         self.replicas[r].epoch = epoch;
                         self.replicas[r].psbt = Some(p);
+                        let pre = format!("replica{}:", r);
+                        self.final_memory.retain(|k, _| !k.0.starts_with(&pre));
                         self.logev(&format!("replica{}", r), "new-epoch", &epoch.to_le_bytes());
                     }
                 }
@@ -655,17 +658,13 @@ impl<'a> World<'a> {
                 if let (Ok(p), true) = (Psbt::deserialize(&bytes), self.replicas[r].psbt.is_some()) {
                     let mut cur = self.replicas[r].psbt.take().unwrap();
                     if epoch == self.replicas[r].epoch && p.unsigned_tx == cur.unsigned_tx {
-                        let backup = cur.clone();
-                        if cur.combine(p).is_err() {
-                            cur = backup;
-                        }
+                        cur = merge_protected(cur, p);
                         self.logev(&format!("replica{}", r), "merged", &bytes);
                         let name = format!("replica{}", r);
                         monitors::probe_attempt(self, &name, &cur);
                         // the replica finalises its own copy
                         let v = self.dec.choose(&format!("rfin:{}:{}", r, self.stats.attempts), 4);
-                        let mut fin = cur.clone();
-                        monitors::finalize_with_monitors(self, &name, &mut fin, v);
+                        monitors::finalize_with_monitors(self, &name, &mut cur, v);
                     } else {
                         self.stats.stale_ignored += 1;
                     }
@@ -700,20 +699,7 @@ impl<'a> World<'a> {
             self.coord.psbt = Some(cur);
             return;
         }
-        let before = cur.clone();
-        // I2: merging must never change inputs that are already final (the coordinator protects them)
-        let backup_final: Vec<_> = cur.inputs.iter().map(|i| (i.final_script_sig.clone(), i.final_script_witness.clone())).collect();
-        if cur.combine(p).is_err() {
-            cur = before;
-        }
-        for (i, (fs, fw)) in backup_final.into_iter().enumerate() {
-            if fs.is_some() || fw.is_some() {
-                // coordinator policy: once final, ignore anything a late/stale message says about this input
-                let keep_nw = cur.inputs[i].non_witness_utxo.clone();
-                let keep_w = cur.inputs[i].witness_utxo.clone();
-                cur.inputs[i] = bitcoin::psbt::Input { non_witness_utxo: keep_nw, witness_utxo: keep_w, final_script_sig: fs, final_script_witness: fw, ..Default::default() };
-            }
-        }
+        cur = merge_protected(cur, p);
         if self.sc.knobs.serde_roundtrip {
             let b = cur.serialize();
             match Psbt::deserialize(&b) {
@@ -819,6 +805,7 @@ impl<'a> World<'a> {
     fn new_epoch(&mut self) {
         self.coord.epoch += 1;
         self.coord.ticks_in_epoch = 0;
+        self.final_memory.retain(|k, _| !k.0.starts_with("coord:"));
         self.stats.epochs += 1;
         let ep = self.coord.epoch;
         let time_units = self.sc.knobs.prefer_time_units ^ (self.dec.choose(&format!("units{}", ep), 4) == 1);
@@ -1065,6 +1052,25 @@ fn corrupt_msg(msg: &mut Msg, c: u64) {
         Msg::PsbtRequest { bytes, .. } | Msg::PsbtReply { bytes, .. } | Msg::Broadcast { bytes } => f(bytes),
         Msg::Advert(_) => {}
     }
+}
+
+/// Combine `p` into `cur`; inputs already final in `cur` are protected from anything a late or stale
+/// message says about them (node policy, so that I2 is about the library and not about the merge).
+fn merge_protected(cur: Psbt, p: Psbt) -> Psbt {
+    let before = cur.clone();
+    let backup_final: Vec<_> = cur.inputs.iter().map(|i| (i.final_script_sig.clone(), i.final_script_witness.clone())).collect();
+    let mut cur = cur;
+    if cur.combine(p).is_err() {
+        cur = before;
+    }
+    for (i, (fs, fw)) in backup_final.into_iter().enumerate() {
+        if fs.is_some() || fw.is_some() {
+            let keep_nw = cur.inputs[i].non_witness_utxo.clone();
+            let keep_w = cur.inputs[i].witness_utxo.clone();
+            cur.inputs[i] = bitcoin::psbt::Input { non_witness_utxo: keep_nw, witness_utxo: keep_w, final_script_sig: fs, final_script_witness: fw, ..Default::default() };
+        }
+    }
+    cur
 }
 
 /// A signer's reply containing only what it added.
